@@ -194,6 +194,9 @@ def cases(rng, tier, shard, nshards):
             pts, meta = gen.curve(rng, nmax=600, nmin=150)     # deep partitions also in the quick tier
         else:
             pts, meta = gen.curve(rng, nmax=80)
+        lay = None
+        if rng.random() < 0.03:
+            pts, meta, lay = gen.large_int_curve(rng), {'family': 'large-int64'}, 'i64'
         cs = pick(rng, COSTS)
         t = gen.threshold(rng, cs)
         if rng.random() < 0.5:          # thresholds near the curve's own cost ladder
@@ -210,7 +213,7 @@ def cases(rng, tier, shard, nshards):
             c2 = pick(rng, COSTS) if rng.random() < 0.5 else cs
             follow.append({'cost': c2, 'distance': pick(rng, DISTANCES),
                            't': t if (c2 == cs and rng.random() < 0.5) else gen.threshold(rng, c2)})
-        yield {'points': pts, 'family': meta['family'], 'layout': gen.pick_layout(rng, pts),
+        yield {'points': pts, 'family': meta['family'], 'layout': lay or gen.pick_layout(rng, pts),
                'cost': cs, 'distance': pick(rng, DISTANCES), 't': t, 'follow': follow}
 
 
